@@ -14,7 +14,8 @@
                the message prefix from the source (`Extracted.Expr.logPrefix`).
   Modelled, not verified: this file is my reading of CPython 3.12; it is compared with the real
   `string.Formatter` on every generated template by the correspondence check.  Nested replacement fields inside
-  a format spec (`{x:{w}}`) are outside the modelled domain (`render` answers `unsupported`; not generated).
+  a format spec (`{x:{w}}`) are rendered by `renderNested` (the spec is formatted one level down, its fields are
+  further LOG watches).
 -/
 import DeepModel.Extracted.Expr
 
@@ -31,7 +32,8 @@ inductive Err
   | numbering    -- switch between automatic and manual field numbering
   | conversion   -- unknown conversion specifier
   | spec         -- invalid format specifier for a str
-  | unsupported  -- nested replacement field inside a format spec (not modelled)
+  | unsupported  -- (flat renderer only) nested replacement field inside a format spec
+  | recursion    -- `Max string recursion exceeded`: a replacement field three levels deep
 deriving DecidableEq, Repr
 
 /-! ### parser -/
@@ -332,10 +334,64 @@ def renderParsed (ev : String → Outcome) (segs : List Seg) : Except Err Render
   | .ok (ps, ws) => .ok ⟨logPrefix ++ String.ofList ps.flatten ++ logSuffix, ws⟩
   | .error e => .error e
 
-/-- `LogActionContext.process_log(template)` -/
+/-! ### replacement fields inside a format spec (`{x:{w}}`)
+
+  `Formatter._vformat(format_string, …, recursion_depth, auto_arg_index)`: after a field's object has been fetched and
+  converted, its format spec is itself formatted with `_vformat(spec, …, recursion_depth - 1, auto_arg_index)` — the
+  spec's own fields go through the agent's `get_field` too (each is one more LOG watch, evaluated AFTER the field they
+  belong to), the automatic numbering runs on through the spec, and `_vformat` entered with a negative depth raises
+  (`vformat` starts at depth 2: fields in the template and in the spec of such a field are fine, a field one level
+  deeper raises — whatever its own spec is). -/
+
+def plainSpecs (segs : List Seg) : Bool :=
+  segs.all (fun s => match s with | .lit _ => true | .field _ _ sp => noBrace sp)
+
+/-- one level of `_vformat` over parsed segments; `specR` formats a spec one level down:
+    (text, watches, numbering state) -/
+def renderWith (ev : String → Outcome)
+    (specR : Option Nat → List Char → Except Err (List Char × List String × Option Nat)) :
+    Option Nat → List Seg → Except Err (List Char × List String × Option Nat)
+  | auto, [] => .ok ([], [], auto)
+  | auto, .lit s :: rest =>
+    match renderWith ev specR auto rest with
+    | .ok (t, ws, a) => .ok (s ++ t, ws, a)
+    | .error e => .error e
+  | auto, .field nm cv sp :: rest =>
+    match fieldExpr auto nm with
+    | .error e => .error e
+    | .ok (expr, auto1) =>
+      match convert cv (ev (String.ofList expr)).text.toList with
+      | .error e => .error e
+      | .ok obj =>
+        match specR auto1 sp with
+        | .error e => .error e
+        | .ok (spec, wsSpec, auto2) =>
+          match formatStr obj spec with
+          | .error e => .error e
+          | .ok t =>
+            match renderWith ev specR auto2 rest with
+            | .ok (t', ws, a) => .ok (t ++ t', String.ofList expr :: (wsSpec ++ ws), a)
+            | .error e => .error e
+
+/-- `_vformat(text, …, recursion_depth = lvl - 1, auto)` -/
+def renderLvl (ev : String → Outcome) : Nat → Option Nat → List Char → Except Err (List Char × List String × Option Nat)
+  | 0, _, _ => .error .recursion
+  | lvl + 1, auto, cs =>
+    match parseChars cs with
+    | .error e => .error e
+    | .ok segs => renderWith ev (renderLvl ev lvl) auto segs
+
+/-- `vformat` on parsed segments (`recursion_depth = 2`) -/
+def renderNested (ev : String → Outcome) (segs : List Seg) : Except Err Rendered :=
+  match renderWith ev (renderLvl ev 2) (some 0) segs with
+  | .ok (t, ws, _) => .ok ⟨logPrefix ++ String.ofList t ++ logSuffix, ws⟩
+  | .error e => .error e
+
+/-- `LogActionContext.process_log(template)`: templates whose format specs carry no braces go through the flat
+    renderer (the theorems of C16 are about it), the others through the nested one -/
 def renderChars (ev : String → Outcome) (tpl : List Char) : Except Err Rendered :=
   match parseChars tpl with
-  | .ok segs => renderParsed ev segs
+  | .ok segs => if plainSpecs segs then renderParsed ev segs else renderNested ev segs
   | .error e => .error e
 
 def render (ev : String → Outcome) (tpl : String) : Except Err Rendered := renderChars ev tpl.toList
